@@ -64,6 +64,16 @@ func runC07(input string) string {
 			addB(buf.Bufferize(unhex(f[1])))
 		case "S":
 			addS(buf.BufferizeString(string(unhex(f[1]))))
+		case "BF":
+			// a value handed out earlier is fed back into the buffer (copy of a copy): a NEW value must be handed out
+			k, _ := strconv.Atoi(f[1])
+			if k < len(hs) && hs[k].live {
+				if hs[k].isStr {
+					addS(buf.BufferizeString(*hs[k].s))
+				} else {
+					addB(buf.Bufferize(*hs[k].b))
+				}
+			}
 		case "A":
 			bb := buf.AcquireBytes()
 			bb = append(bb, unhex(f[1])...)
